@@ -69,6 +69,8 @@ def gen_world(rng, tier):
         ext = list(base) + [rng.choice(alphabet)] if rng.random() < 0.5 else [rng.choice(alphabet)] + list(base)
         pats.append(ext)
     prefix = [rng.choice(alphabet) for _ in range(rng.choice([0, 0, 0, 1, 2]))]
+    if rng.random() < 0.12:
+        pats = []  # pattern-free worlds: SplitZeros (a product of two non-atoms) applies
     r = rng.random()
     if r < 0.4:
         tracked = []
@@ -92,6 +94,10 @@ def gen_pack(rng, world, flavour=None, allow_iterative=True):
     initial = []
     if rng.random() < 0.9:
         initial.append({"t": "RemoveFront", "mask": _mask(rng, 0.2, (3, 4, 5, 6)), "lazy": lazy()})
+    if not world["patterns"] and rng.random() < 0.7:
+        initial.append({"t": "SplitZeros", "mask": _mask(rng, 0.15), "lazy": lazy()})
+        if rng.random() < 0.5:
+            initial.reverse()
     inferral = []
     unary_pool = [{"t": "ReducePatterns"}, {"t": "DropDeadStatistic"}, {"t": "MergeDuplicateStatistics"}]
     track_used = False
@@ -112,15 +118,16 @@ def gen_pack(rng, world, flavour=None, allow_iterative=True):
                 (inferral if rng.random() < 0.7 else initial).append(u)
     rng.shuffle(inferral)
     exp_mask = _mask(rng, 0.35)
+    drop = bool(tracked) and rng.random() < 0.35
     r = rng.random()
     if r < 0.45:
-        expansion = [[{"t": "Expand", "d": 1, "mask": exp_mask, "lazy": lazy()}]]
+        expansion = [[{"t": "Expand", "d": 1, "mask": exp_mask, "lazy": lazy(), "drop": drop}]]
     elif r < 0.6:
-        expansion = [[{"t": "Expand", "d": 2, "mask": exp_mask, "lazy": lazy()}]]
+        expansion = [[{"t": "Expand", "d": 2, "mask": exp_mask, "lazy": lazy(), "drop": drop}]]
     elif r < 0.75:
         expansion = [
-            [{"t": "Expand", "d": 1, "mask": exp_mask, "lazy": lazy()}],
-            [{"t": "Expand", "d": 2, "mask": _mask(rng, 0.35), "lazy": lazy()}],
+            [{"t": "Expand", "d": 1, "mask": exp_mask, "lazy": lazy(), "drop": drop}],
+            [{"t": "Expand", "d": 2, "mask": _mask(rng, 0.35), "lazy": lazy(), "drop": drop}],
         ]
     else:
         expansion = [
@@ -712,8 +719,10 @@ def simplify_search(R):
                 yield dict(R, pack=dict(pk, **{sect: pk[sect][:i] + [ns] + pk[sect][i + 1 :]}))
     for j, st in enumerate(pk["expansion"]):
         for i, s in enumerate(st):
-            if s.get("mask") is not None or s.get("lazy") or s.get("dup") or s.get("foreign"):
+            if s.get("mask") is not None or s.get("lazy") or s.get("dup") or s.get("foreign") or s.get("drop"):
                 ns = dict(s, mask=None, lazy=False)
+                if "drop" in ns:
+                    ns["drop"] = False
                 if "dup" in ns:
                     ns["dup"] = False
                     ns["foreign"] = None
